@@ -8,6 +8,7 @@ CONSTANTS
   EndSyms = {FALSE}
   AnnModes = {"none", "blk", "bi"}
   WithProxyDel = FALSE
+  CfiLayouts = {"none"}
   Emit = TRUE
 INVARIANT Inv
 CHECK_DEADLOCK FALSE
